@@ -17,9 +17,9 @@ func init() {
 			"R14.3: the Updated-event rewrite table of a filtered kind watch, row by row: (old,new) = (T,F)→Destroyed, (F,T)→Created, (T,T)→kept, (F,F)→dropped, with Old cleared on rewrite; Created/Destroyed kept iff the resource matches. " +
 			"R14.4: combinators — queries: empty→true, any→true; query: empty→true, all terms; Labels.Matches: indeterminate → false regardless of Invert, else Invert negates; matches(): the only result that skips the label lookup is for the Exists operator, a missing label is indeterminate exactly for comparison operators, a value-less non-Exists term is false before term.Value is indexed, a non-numeric operand is indeterminate. " +
 			"R14.5: a transparently re-established remote watch keeps its selectors (shared with C13 R13.1).",
-		NotCovered: "the algebra over all label maps and all histories of label changes; numeric parsing with unit suffixes (compare.GetNumbers) beyond 'failure is indeterminate'; regular-expression semantics.",
-		Assumptions:  []string{"state.EventType has exactly six values (checked in C15 R15.3)"},
-		Run:          runC14,
+		NotCovered:  "the algebra over all label maps and all histories of label changes; numeric parsing with unit suffixes (compare.GetNumbers) beyond 'failure is indeterminate'; regular-expression semantics.",
+		Assumptions: []string{"state.EventType has exactly six values (checked in C15 R15.3)"},
+		Run:         runC14,
 	})
 }
 
@@ -141,7 +141,10 @@ func runC14(c *Ctx) {
 			}
 
 			if _, ok := ctorOp[f.Name()]; !ok {
-				for _, in := range Find(g, func(in ssa.Instruction) bool { al, ok := in.(*ssa.Alloc); return ok && strings.HasSuffix(al.Type().String(), "LabelTerm") }) {
+				for _, in := range Find(g, func(in ssa.Instruction) bool {
+					al, ok := in.(*ssa.Alloc)
+					return ok && strings.HasSuffix(al.Type().String(), "LabelTerm")
+				}) {
 					_ = in
 					ctorOp[f.Name()] = "0" // Op left at its zero value (LabelOpExists)
 				}
@@ -341,7 +344,9 @@ func runC14(c *Ctx) {
 			call, ok := in.(*ssa.Call)
 
 			return ok && p.CalleeName(call) == "builtin.append" && Glob("*var:[]pkg/resource.Resource", p.Desc(call.Call.Args[0]))
-		}, CutSpec{Edges: func(e EdgeInfo) bool { return strings.HasPrefix(e.Facts[0], "true(call:") && strings.Contains(e.Facts[0], "WatchAll$") }}, 1)
+		}, CutSpec{Edges: func(e EdgeInfo) bool {
+			return strings.HasPrefix(e.Facts[0], "true(call:") && strings.Contains(e.Facts[0], "WatchAll$")
+		}}, 1)
 	}
 
 	if f := p.Method(pkgCache, "cacheHandler", "list"); c.NeedFunc("R14.2", f, handlerT+".list") {
@@ -432,20 +437,49 @@ func runC14(c *Ctx) {
 
 			return ok && IsReturn(in) && p.Desc(r.Results[0]) != "const:false"
 		}, CutSpec{})
-		c.MustCut("R14.4", "Labels.Matches: negated result ⊣ {term.Invert}", f, func(in ssa.Instruction) bool {
+		// accepted forms: `if term.Invert { return !*m }; return *m` and `return *m != term.Invert`
+		xor := Find(f, func(in ssa.Instruction) bool {
 			r, ok := in.(*ssa.Return)
+			if !ok || !IsReturn(in) {
+				return false
+			}
 
-			return ok && IsReturn(in) && p.Desc(r.Results[0]) == "!*"+m
-		}, CutSpec{Edges: FactEdge("true(*.Invert)")}, 1)
-		c.MustCut("R14.4", "Labels.Matches: plain result ⊣ {!term.Invert}", f, func(in ssa.Instruction) bool {
-			r, ok := in.(*ssa.Return)
+			d := p.Desc(r.Results[0])
 
-			return ok && IsReturn(in) && p.Desc(r.Results[0]) == "*"+m
-		}, CutSpec{Edges: FactEdge("false(*.Invert)")}, 1)
+			return Glob("(*"+m+"!=*.Invert)", d) || Glob("(*.Invert!=*"+m+")", d)
+		})
+
+		if len(xor) > 0 {
+			c.OK("R14.4", FuncName(f)+" :: Labels.Matches: negated result ⊣ {term.Invert}", xor[0].Pos(), "result is *m != term.Invert")
+			c.OK("R14.4", FuncName(f)+" :: Labels.Matches: plain result ⊣ {!term.Invert}", xor[0].Pos(), "result is *m != term.Invert")
+		} else {
+			c.MustCut("R14.4", "Labels.Matches: negated result ⊣ {term.Invert}", f, func(in ssa.Instruction) bool {
+				r, ok := in.(*ssa.Return)
+
+				return ok && IsReturn(in) && p.Desc(r.Results[0]) == "!*"+m
+			}, CutSpec{Edges: FactEdge("true(*.Invert)")}, 1)
+			c.MustCut("R14.4", "Labels.Matches: plain result ⊣ {!term.Invert}", f, func(in ssa.Instruction) bool {
+				r, ok := in.(*ssa.Return)
+
+				return ok && IsReturn(in) && p.Desc(r.Results[0]) == "*"+m
+			}, CutSpec{Edges: FactEdge("false(*.Invert)")}, 1)
+		}
+
+		// no other definite result: every return is false (indeterminate), *m, !*m or the xor form
+		okForms := true
+
+		for _, in := range Find(f, IsReturn) {
+			d := p.Desc(in.(*ssa.Return).Results[0])
+			if !(d == "const:false" || d == "*"+m || d == "!*"+m || Glob("(*"+m+"!=*.Invert)", d) || Glob("(*.Invert!=*"+m+")", d)) {
+				okForms = false
+			}
+		}
+
+		c.Check(okForms, "R14.4", FuncName(f)+" :: Labels.Matches: results are false, *m, !*m or *m != Invert", fpos(f), "yes", "another result form")
 	}
 
 	if f := p.Method(pkgResource, "Labels", "matches"); f != nil {
-		get := p.CallTo("(*" + pkgKV + ".KV).Get", "(pkg/resource.Labels).Get", "(*pkg/resource.Labels).Get")
+		get := p.CallTo("(*"+pkgKV+".KV).Get", "(pkg/resource.Labels).Get", "(*pkg/resource.Labels).Get")
 		exists := p.ConstVal(pkgResource, "LabelOpExists")
 
 		c.MustCut("R14.4", "matches: a result that skips the label lookup ⊣ {Op == Exists}", f, IsReturn, CutSpec{Nodes: get, Edges: FactEdge("eq(*.Op," + exists + ")")}, 1)
